@@ -177,3 +177,50 @@ V("c19-hoomd-extra-key", "fault", "C19", P + "sphere.py",
 V("c19-hoomd-mapping-typo", "fault", "C19", P + "utils.py", '"inertia_tensor": "moment_inertia"', '"inertia_tensor": "moment_of_inertia"', rule="HOOMD-3")
 V("c19-rw-dict-literal-order", "rewrite", "C19", P + "ellipsoid.py",
   'return {"type": "Ellipsoid", "a": self.a, "b": self.b, "c": self.c}', 'return {"c": self.c, "a": self.a, "b": self.b, "type": "Ellipsoid"}')
+
+# ------------------------------------------------------------------------------------------ C09
+V("c09-abs-tolerance-on-length", "fault", "C09", P + "convex_polyhedron.py",
+  "return np.all(self._point_plane_distances(points) <= 0, axis=1)", "return np.all(self._point_plane_distances(points) <= 1e-5, axis=1)", rule="SC-3")
+V("c09-inhomogeneous-sum", "fault", "C09", P + "polygon.py",
+  "        return np.abs(self.signed_area)\n", "        return np.abs(self.signed_area) + self.perimeter\n", rule="SC-1")
+V("c09-wrong-degree-perimeter", "fault", "C09", P + "convex_spheropolygon.py",
+  "return self.polygon.perimeter + 2 * np.pi * self.radius", "return self.polygon.perimeter + 2 * np.pi * self.radius**2", rule="SC-1")
+V("c09-degree-of-observable", "fault", "C09", P + "convex_polyhedron.py",
+  "return unnorm_r / (8 * np.pi)", "return unnorm_r**2 / (8 * np.pi)", rule="SC-2")
+V("c09-trig-of-length", "fault", "C09", P + "sphere.py", "np.cos(qr)", "np.cos(self.radius)", rule="SC-1")
+V("c09-eps-in-planarity", "fault", "C09", P + "convex_spheropolyhedron.py",
+  "point_faces_in_extruded_hull = point_plane_distances <= self.radius", "point_faces_in_extruded_hull = point_plane_distances <= self.radius + 1e-4", rule="SC-3")
+V("c09-isclose-length-zero-looser", "fault", "C09", P + "circle.py", "np.isclose(points[:, 2], 0)", "np.isclose(points[:, 2], 0, atol=1e-4)", rule="SC-3")
+V("c09-rw-rename-resids", "rewrite", "C09", P + "polyhedron.py",
+  "        x, resids, _, _ = np.linalg.lstsq(points, half_point_lengths, None)\n        if len(self.vertices) > 4 and not np.isclose(resids, 0):",
+  "        x, residual, _, _ = np.linalg.lstsq(points, half_point_lengths, None)\n        if len(self.vertices) > 4 and not np.isclose(residual, 0):")
+V("c09-rw-relative-tolerance", "rewrite", "C09", P + "circle.py", "np.isclose(points[:, 2], 0)", "np.isclose(points[:, 2], 0, atol=1e-8)")
+
+# ------------------------------------------------------------------------------------------ C10
+V("c10-ellipse-area-factor", "fault", "C10", P + "ellipse.py", "return np.pi * self.a * self.b", "return np.pi * self.a * self.a", rule=None)
+V("c10-sphere-surface-constant", "fault", "C10", P + "sphere.py", "return 4 * np.pi * self.radius**2", "return 2 * np.pi * self.radius**2", rule="SPEC-2")
+V("c10-ellipsoid-inertia-swapped", "fault", "C10", P + "ellipsoid.py",
+  "i_yy = vol / 5 * (self.a**2 + self.c**2)", "i_yy = vol / 5 * (self.a**2 + self.b**2)", rule="AX-1")
+V("c10-ellipse-ix-axis", "fault", "C10", P + "ellipse.py", "i_x = area / 4 * self.b**2", "i_x = area / 4 * self.a**2", rule="AX-1")
+V("c10-sphere-inertia-constant", "fault", "C10", P + "sphere.py", "i_xx = vol * 2 / 5 * self.radius**2", "i_xx = vol * 3 / 5 * self.radius**2", rule="SPEC-1")
+V("c10-circle-iq", "fault", "C10", P + "base_classes.py", "return 4 * np.pi * self.area / (self.perimeter**2)", "return 2 * np.pi * self.area / (self.perimeter**2)", rule="IQ-1")
+V("c10-eccentricity-unsorted", "fault", "C10", P + "ellipse.py",
+  "        b, a = sorted([self.a, self.b])\n        e = np.sqrt(1 - b**2 / a**2)", "        b, a = self.b, self.a\n        e = np.sqrt(1 - b**2 / a**2)", rule="SORT-1")
+V("c10-surface-area-two-axes-sorted", "fault", "C10", P + "ellipsoid.py",
+  "c, b, a = sorted([self.a, self.b, self.c])", "c, a = sorted([self.a, self.c])\n        b = self.b", rule="SORT-1")
+V("c10-volume-degree", "fault", ["C10", "C09"], P + "ellipsoid.py", "return (4 / 3) * np.pi * self.a * self.b * self.c", "return (4 / 3) * np.pi * self.a * self.b", rule=None)
+V("c10-rw-reassociate", "rewrite", "C10", P + "ellipsoid.py", "return (4 / 3) * np.pi * self.a * self.b * self.c", "return self.a * self.b * self.c * np.pi * 4 / 3")
+
+# ------------------------------------------------------------------------------------------ C11
+V("c11-sphere-term-constant", "fault", "C11", P + "convex_spheropolyhedron.py", "v_sphere = (4 / 3) * np.pi * self.radius**3", "v_sphere = 4 * np.pi * self.radius**3", rule="ST-1")
+V("c11-wedge-fraction", "fault", "C11", P + "convex_spheropolyhedron.py",
+  "(np.pi * self.radius**2) * ((np.pi - phi) / (2 * np.pi)) * edge_length",
+  "(np.pi * self.radius**2) * ((np.pi - phi) / np.pi) * edge_length", rule="ST-1")
+V("c11-area-cylinder-constant", "fault", "C11", P + "convex_spheropolyhedron.py", "a_sphere = 4 * np.pi * self.radius**2", "a_sphere = 2 * np.pi * self.radius**2", rule="ST-1")
+V("c11-perimeter-pi", "fault", "C11", P + "convex_spheropolygon.py", "return self.polygon.perimeter + 2 * np.pi * self.radius", "return self.polygon.perimeter + np.pi * self.radius", rule="ST-1")
+V("c11-mean-curvature-norm", "fault", "C11", P + "convex_polyhedron.py", "return unnorm_r / (8 * np.pi)", "return unnorm_r / (4 * np.pi)", rule="ST")
+V("c11-tau-definition", "fault", "C11", P + "convex_polyhedron.py", "return 4 * np.pi * mc * mc / self.surface_area", "return 4 * np.pi * mc / self.surface_area", rule=None)
+V("c11-asphericity-volume", "fault", "C11", P + "convex_polyhedron.py", "return self.mean_curvature * self.surface_area / (3 * self.volume)", "return self.mean_curvature * self.surface_area / (2 * self.volume)", rule="ST-4")
+V("c11-signed-area-sign", "fault", "C11", P + "convex_spheropolygon.py", "            return poly_area - sphero_area\n", "            return poly_area + sphero_area\n", rule="ST-4")
+V("c11-cap-area", "fault", "C11", P + "convex_spheropolygon.py", "cap_area = np.pi * self.radius * self.radius", "cap_area = 2 * np.pi * self.radius * self.radius", rule="ST-1")
+V("c11-rw-loop-variable", "rewrite", "C11", P + "convex_polyhedron.py", "            unnorm_r += edge_length * (np.pi - phi)", "            unnorm_r += (np.pi - phi) * edge_length")
